@@ -305,7 +305,7 @@ def int_scalar_cases(draw):
             "c": draw(st.sampled_from([0.5, 0.25, 1.5, -2.5, 4, 3, 0.1, -0.75])), "form": draw(st.sampled_from(SCALAR_FORMS_INT))}
 
 
-SCALAR_FORMS_INT = ["add", "radd", "sub", "rsub", "mul", "rmul", "div"]
+SCALAR_FORMS_INT = ["add", "radd", "sub", "rsub", "mul", "rmul", "div", "rdiv", "pow-1", "pow_fn-1", "tdiv", "list_div", "pow2", "pow-2"]
 
 
 def check_int_scalar(c, rec):
@@ -320,14 +320,26 @@ def check_int_scalar(c, rec):
     cc, f = c["c"], c["form"]
     rec.nontrivial(not float(cc).is_integer())
     rec.tag(c["idt"], f)
+    if f in ("rdiv", "pow-1", "pow_fn-1", "tdiv", "list_div", "pow-2"):
+        # an integer tensor as divisor / base of a negative power: refused by NumPy and PyTorch for the power, true
+        # division for "/" - either way the only acceptable ANSWER is the real quotient, never integer arithmetic
+        x = np.where(x == 0, 1, x).astype(dt)
+        t = sg.Tensor(x.copy())
+    one = sg.Tensor(np.ones(x.shape, dtype=np.float32))
     fn = {"add": lambda a: a + cc, "radd": lambda a: cc + a, "sub": lambda a: a - cc, "rsub": lambda a: cc - a,
-          "mul": lambda a: a * cc, "rmul": lambda a: cc * a, "div": lambda a: a / cc}[f]
+          "mul": lambda a: a * cc, "rmul": lambda a: cc * a, "div": lambda a: a / cc, "rdiv": lambda a: cc / a,
+          "pow-1": lambda a: a ** -1, "pow-2": lambda a: a ** -2, "pow2": lambda a: a ** 2,
+          "pow_fn-1": lambda a: sg.pow(a, -1) if isinstance(a, sg.Tensor) else a ** -1.0,
+          "tdiv": lambda a: (one / a) if isinstance(a, sg.Tensor) else 1.0 / a,
+          "list_div": lambda a: (np.ones(x.shape).tolist() / a) if isinstance(a, sg.Tensor) else 1.0 / a}[f]
     try:
         out = fn(t)
     except Exception:  # noqa: BLE001  (nothing documents integer tensors with scalars: accept-or-raise)
         rec.skip = "rejected_not_documented"
         return
-    want = fn(x.astype(np.float64))
+    with np.errstate(all="ignore"):
+        x64 = x.astype(np.float64)
+        want = {"pow-1": lambda: 1.0 / x64, "pow-2": lambda: 1.0 / x64 ** 2, "pow2": lambda: x64 ** 2}.get(f, lambda: fn(x64))()
     got = np.asarray(out.data, dtype=np.float64)
     if got.shape != want.shape or np.abs(got - want).max(initial=0.0) > 1e-6 * max(1.0, np.abs(want).max(initial=0.0)):
         raise Violation("value", f"{c['idt']} tensor {f} Python scalar {cc!r}: got {got.ravel()[:5].tolist()} instead of "
@@ -560,6 +572,6 @@ def subchecks():
     subs.append(SubCheck("reflected_operators", check_reflected, reflected_cases, quick=400, thorough=4000))
     from .. import zerosize
     subs.append(SubCheck("zero_size", check_zero_size, zerosize.cases, quick=500, thorough=6000))
-    subs.append(SubCheck("int_tensor_scalar", check_int_scalar, int_scalar_cases, quick=300, thorough=3000))
+    subs.append(SubCheck("int_tensor_scalar", check_int_scalar, int_scalar_cases, quick=600, thorough=6000))
     subs.append(SubCheck("dim_grid", check_dim_grid, None, enum=enum_dims, exhaustive=True, shards_quick=8, shards_thorough=16))
     return subs
